@@ -108,6 +108,22 @@ def rx_3_4(ctx, rep):
                         rep.ob('RX-4', UTILS, 'split_lines', norm(n), ok,
                                'list element overwritten by something else than the concatenation of itself and '
                                'its right neighbour followed by deleting that neighbour')
+            elif isinstance(n, ast.Delete):
+                for t in n.targets:
+                    if isinstance(t, ast.Subscript) and isinstance(t.value, ast.Name) and t.value.id == name:
+                        parent = getattr(n, '_parent', None)
+                        body = None
+                        for field in ('body', 'orelse', 'finalbody'):
+                            b = getattr(parent, field, None)
+                            if isinstance(b, list) and n in b:
+                                body = b
+                        prev = body[body.index(n) - 1] if body and body.index(n) > 0 else None
+                        ok = isinstance(prev, ast.Assign) and len(prev.targets) == 1 \
+                            and isinstance(prev.targets[0], ast.Subscript) and norm(prev.targets[0].value) == name \
+                            and norm(t.slice) == '%s + 1' % norm(prev.targets[0].slice) \
+                            and norm(prev.value) == '%s[%s] + %s' % (name, norm(prev.targets[0].slice), norm(t))
+                        rep.ob('RX-4', UTILS, 'split_lines', norm(n), ok,
+                               'a piece of the text is deleted from the line list without having been merged into its left neighbour')
             elif isinstance(n, ast.Call) and isinstance(n.func, ast.Attribute) \
                     and isinstance(n.func.value, ast.Name) and n.func.value.id == name:
                 if n.func.attr == 'append':
@@ -185,13 +201,18 @@ def rx_5_6(ctx, rep):
     else:
         raise AnalysisError('detect_encoding: unsupported use re.%s of the declaration pattern' % attr)
     nA = rx.compile_nfa(A)
-    # window the search is applied to: at most two lines
-    W = rb'[^\r\n]*(?:' + nl + rb'[^\r\n]*(?:' + nl + rb')?)?'
+    # window the search is applied to: at most two lines (everything when the pattern is applied to the source itself)
+    W = rb'[^\r\n]*(?:' + nl + rb'[^\r\n]*(?:' + nl + rb')?)?' if window is not None else anyb
     nW = rx.compile_nfa(W)
     w = rx._search([nA, nW, nB], lambda fl: fl[0] and fl[1] and not fl[2])
     rep.ob('RX-5', UTILS, 'python_bytes_to_unicode.detect_encoding', 'declaration pattern %r' % (pat,), w is None,
            'text in which parso finds an encoding declaration and CPython does not' if w is not None else '',
            witness=w)
+    if window is None and attr == 'match':
+        # single anchored pattern: it must also find every declaration CPython honours
+        w2 = rx.included(nB, nA)
+        rep.ob('RX-5', UTILS, 'python_bytes_to_unicode.detect_encoding', 'declaration pattern finds every CPython declaration',
+               w2 is None, 'text in which CPython honours a coding declaration that parso does not find', witness=w2)
     if window is not None:
         wattr, wpat, wnode = window
         wsrc = wpat if isinstance(wpat, bytes) else wpat.encode('latin-1')
@@ -499,11 +520,43 @@ class PrefixFlow:
                 if te == "initial == '#'":
                     return 'comment'
             return None
+        # X[:n] with n = len(X) - len(X.lstrip(CHARS)): the leading run of characters from CHARS
+        if isinstance(t, ast.Subscript) and isinstance(t.slice, ast.Slice) and t.slice.lower is None \
+                and isinstance(t.slice.upper, ast.Name) and isinstance(t.value, ast.Name):
+            chars = self._lstrip_chars(f, t.value.id, t.slice.upper.id)
+            if chars is not None:
+                ws = rx.compile_nfa(self.ctx.token_collection((3, 8))['Whitespace'])
+                import re as _re
+                run = rx.compile_nfa('[%s]*' % ''.join(_re.escape(c) for c in sorted(set(chars)))) if chars else None
+                if run is not None and rx.included(run, ws) is None:
+                    return 'ws'
+            return None
         if isinstance(t, ast.Subscript) and norm(t) == 'line[start:]':
             for te in tests:
                 if "line[start:] in ('\\\\\\n', '\\\\\\r\\n', '\\\\\\r')" in te and "initial == '\\\\'" in te:
                     return 'bsnl'
             return None
+        return None
+
+    def _lstrip_chars(self, f, var, nvar):
+        """CHARS when nvar == len(var) - len(var.lstrip(CHARS)) (possibly through one local), else None."""
+        def single(name):
+            vals = [n.value for n in walk_own(f.node) if isinstance(n, ast.Assign)
+                    and any(isinstance(x, ast.Name) and x.id == name for x in n.targets)]
+            return vals[0] if len(vals) == 1 else None
+        v = single(nvar)
+        if not (isinstance(v, ast.BinOp) and isinstance(v.op, ast.Sub) and norm(v.left) == 'len(%s)' % var
+                and isinstance(v.right, ast.Call) and norm(v.right.func) == 'len' and len(v.right.args) == 1):
+            return None
+        inner = v.right.args[0]
+        if isinstance(inner, ast.Name):
+            inner = single(inner.id)
+        if isinstance(inner, ast.Call) and isinstance(inner.func, ast.Attribute) and inner.func.attr == 'lstrip' \
+                and norm(inner.func.value) == var:
+            if len(inner.args) == 1 and isinstance(inner.args[0], ast.Constant) and isinstance(inner.args[0].value, str):
+                return inner.args[0].value
+            if not inner.args:
+                return None          # argument-less lstrip: Unicode whitespace, not a tokenizer class
         return None
 
     def _assignments(self, f, name, work):
